@@ -201,29 +201,25 @@ def run(ctx, anchors=None):
     rsz = [f for f in fb.fns("ReadCompactSize") if f.file == "serialize.h"]
     if not wsz or not rsz:
         raise AnalysisBroken("compact size codec not found")
-    wl, _ = ladders.writer_ladder(wsz[0], ladders.ser_width)
+    wl = ladders.writer_classes(prog, wsz[0])
     ctx.inst(wl == ladders.EXPECT_WRITER, "R13.5", "writer-ladder", wsz[0].loc(), "WriteCompactSize ladder %s" % wl, "WriteCompactSize uses %s, expected %s" % (wl, ladders.EXPECT_WRITER))
     rf = rsz[0]
-    arms = []
-    for n in rf.nodes():
-        if n["k"] == "if":
-            c = n["cond"]
-            if c.get("k") == "bin" and astq.estr(c["lhs"]) == "chSize":
-                K = astq.const_value(c["rhs"])
-                width = ladders.ser_width(n["then"])
-                canon = [astq.const_value(x["cond"]["rhs"]) for x in walk(n["then"]) if x["k"] == "if" and x["cond"].get("k") == "bin" and x["cond"]["op"] == "<" and any(y["k"] == "throw" for y in walk(x["then"]))]
-                arms.append((c["op"], K, width, canon[0] if canon else None))
-                last = n
-    # the final else arm
-    els = last.get("else") if arms else None
-    if els is not None:
-        canon = [astq.const_value(x["cond"]["rhs"]) for x in walk(els) if x["k"] == "if" and x["cond"].get("k") == "bin" and x["cond"]["op"] == "<" and any(y["k"] == "throw" for y in walk(x["then"]))]
-        arms.append(("else", None, ladders.ser_width(els), canon[0] if canon else None))
-    want = [("<", 253, None, None), ("==", 253, 2, 253), ("==", 254, 4, 0x10000), ("else", None, 8, 0x100000000)]
+    rc = ladders.reader_classes(prog, rf)
+    arms = sorted((lo, hi, r["width"], r["canon"], r["ret_ok"]) for ((lo, hi), r) in rc.items())
+    want = [(0, 252, None, None, True), (253, 253, 2, 253, True), (254, 254, 4, 0x10000, True), (255, 255, 8, 0x100000000, True)]
     ctx.site(len(arms))
-    ctx.inst(arms == want, "R13.5", "reader-ladder", rf.loc(), "ReadCompactSize: markers 253/254/255 -> widths 2/4/8 with canonical lower bounds 253 / 0x10000 / 0x100000000",
-             "ReadCompactSize decodes %s; the writer's classes require %s" % (arms, want))
-
+    ctx.inst(arms == want, "R13.5", "reader-ladder", rf.loc(), "ReadCompactSize: markers 253/254/255 -> widths 2/4/8 with canonical lower bounds 253 / 0x10000 / 0x100000000; the value read is the value returned",
+             "ReadCompactSize decodes (marker lo, hi, width, canonical bound, returns-the-value) %s; the writer's classes require %s" % (arms, want))
+    # the size limit applies when range_check is set
+    X_, outs_ = ladders._explore(prog, rf, params={rf.params[0]["n"]: ("a", "is"), rf.params[1]["n"]: ladders.symx.C(1)})
+    mx = fb.var("MAX_SIZE").get("value")
+    lim = set()
+    for o in outs_:
+        if o.status == "ret":
+            for (t, v) in o.conds:
+                if isinstance(t, tuple) and t[0] == "ap" and t[1] == "<" and ladders.symx.is_const(t[2]) and not v and t[2][1] >= 0x1000:
+                    lim.add(t[2][1])
+    ctx.inst(lim == {mx}, "R13.5", "reader-size-limit", rf.loc(), "with range_check every returned size is <= MAX_SIZE (%s)" % mx, "with range_check the returned size is bounded by %s; MAX_SIZE is %s" % (sorted(lim), mx))
 
 MUTANTS = [
     dict(name="writer-vout-before-vin", file="primitives/transaction.h", find="    s << tx.vin;\n    s << tx.vout;\n    if (flags & 1) {", replace="    s << tx.vout;\n    s << tx.vin;\n    if (flags & 1) {", expect=["R13.1:mirror", "R13.1:format"]),
